@@ -156,6 +156,9 @@ def run(ctx):
     from .shared import import_rules
     import_rules(ctx, r5, "C02", only={"R1", "R2", "R1b"})
     import_rules(ctx, r5, "C08", only={"R1", "R2", "R3"})   # R1: a job the scheduler holds as suspended, held or requeued is alive - its dependents must wait for it
+    # a state query that fails is not an answer: a running prerequisite that looks unknown (and whose output exists) is taken for complete, and its dependent is submitted
+    # without waiting for it
+    import_rules(ctx, r5, "C09", only={"R3"}, select=lambda c: c.endswith("-failure") or c.endswith("truncated-answer"))
 
 
 def rule_tracked_dump(ctx, r):
